@@ -103,7 +103,8 @@ def run_case(case):
     off_cd = (np.arange(C * D, dtype=float).reshape(C, D) % 2 - 0.25) * s
     off_ncd = np.array([off_cd * (i + 1) * 0.5 for i in range(N)])
     mapm = GMMMachine(C, trainer="map", ubm=ubm)
-    mapm.means = um + 1.0  # an adapted machine: its own means must not be used as the UBM's
+    mapm.means = um + 1.0  # an adapted machine: neither its own means nor its own variances may be used as the UBM's
+    mapm.variances = uv * 2.5
     machines = []
     for mm in models:
         g = GMMMachine(C)
@@ -145,6 +146,35 @@ def run_case(case):
             if st.t == 0 and norm:
                 gotj = np.asarray(linear_scoring(np.array(models), U, stats, off, norm))[:, j]
                 c.check(bool(np.all(gotj == 0)), "zero_frames", f"zero-frame statistics must score 0, got {gotj.tolist()}", tags)
+    # history: the UBM's variances are changed through the public setters after it has been used for scoring
+    ubm2 = copy.deepcopy(ubm)
+    linear_scoring(np.array(models), ubm2, stats, 0, False)
+    for step, newvar in (("variances", uv * 4.0), ("floor", None), ("variances", uv * 0.5)):
+        if step == "variances":
+            ubm2.variances = newvar.copy()
+        else:
+            ubm2.variance_thresholds = float(uv.max()) * 8.0
+        v2 = np.asarray(ubm2.variances, float)
+        want2 = np.array([[ofa.linear_score(models[i], um, v2, np.asarray(stats[j].n), np.asarray(stats[j].sum_px), stats[j].t, off_cd, True)
+                           for j in range(N)] for i in range(M)])
+        got2 = np.asarray(linear_scoring(np.array(models), ubm2, stats, off_cd, True))
+        c.close(got2, want2, "after_ubm_update", f"scores after the UBM's {step} were changed", {}, scale=scale * 8)
+        c.transitions += 1
+        if step == "floor":
+            ubm2.variance_thresholds = 1e-12
+    # a UBM whose means are stored as an integer array (the setter keeps what it is given)
+    if case["mset"] == 0:
+        ubm3 = GMMMachine(C, weights=np.asarray(ubm.weights, float))
+        mi = np.round(um).astype(np.int64)
+        ubm3.means = mi
+        ubm3.variances = uv.copy()
+        mods3 = [mi + 0.5 * s, mi - 0.25 * s]
+        want3 = np.array([[ofa.linear_score(mods3[i], mi.astype(float), uv, np.asarray(stats[j].n), np.asarray(stats[j].sum_px), stats[j].t, None, False)
+                           for j in range(N)] for i in range(2)])
+        for pres, arg in (("array3", np.array(mods3)), ("list_of_arrays", [m_.copy() for m_ in mods3])):
+            got3 = np.asarray(linear_scoring(arg, ubm3, stats, 0, False))
+            c.close(got3, want3, "integer_ubm_means", f"{pres}: UBM means held in an integer array, fractional model means", {}, scale=scale)
+            c.transitions += 1
     # linearity in the model offset
     d1, d2 = models[0] - um, (models[1] - um if M > 1 else (models[0] - um) * 0.5)
     for a, b in ((2.0, -0.5), (0.25, 3.0)):
